@@ -296,21 +296,36 @@ def run(chk):
             continue
         chk.touched(b)
         o = normal.rows(S, b, N)
-        with_ed = [x for x in o if has(x.value, lambda y: (isinstance(y, tuple) and len(y) == 4 and y[0] == "upd" and names.is_(y[1], "BitOrAssign::bitor_assign")) or is_call(y, "AuthenticatorData::set_flags"))]
-        without = [x for x in o if x.variant[:1] == ("Ok",) and x not in with_ed]
-        ok = len(with_ed) >= 1 and len(without) >= 1
-        # the value that decides: the request's outputs (param 2) reduced to Some(non-empty contents) / None
+        # read off the returned value itself: which flags it carries beyond the receiver's, and what its extensions member is
         is_zip = lambda y: isinstance(y, tuple) and len(y) == 4 and y[0] == "call" and y[1].endswith("::zip_contents") and has(y, lambda z: z == ("param", 2))
         is_contents = lambda y: is_zip(y) or (isinstance(y, tuple) and y and y[0] == "gamma" and has(y, is_zip) and flow.is_discr(y[1], ("param", 2)))
-        for x in with_ed:
-            # ED rows: extension contents present and the extensions member written
-            present = any(flow.asserts_ok(t, l, is_contents) for t, l, fn, w in x.conds)
-            wrote = has(x.value, lambda y: isinstance(y, tuple) and len(y) == 3 and y[0] == "with")
-            ok = ok and present and wrote
-        for x in without:
-            absent = any(flow.asserts_fail(t, l, is_contents) or flow.asserts_fail(t, l, lambda y: y == ("param", 2)) for t, l, fn, w in x.conds)
-            unchanged = x.value == ("agg", "core::result::Result", "Ok", (("0", ("param", 1)),))
-            ok = ok and absent and unchanged
+        SELF = ("param", 1)
+        n_ed = n_plain = 0
+        ok = True
+        for x in o:
+            if x.variant[:1] != ("Ok",):
+                continue
+            v = N.inline(x.value)
+            V = dict(v[3]).get("0") if isinstance(v, tuple) and len(v) == 4 and v[0] == "agg" and v[2] == "Ok" else None
+            if V is None:
+                ok = False
+                continue
+            fl = N.norm(("field", V, "flags"))
+            ext = N.norm(("field", V, "extensions"))
+            base, added = flow.flag_delta(fl)
+            while isinstance(base, tuple) and len(base) == 3 and base[0] == "field" and base[2] == "0":
+                base = base[1]   # the bits inside the flags newtype (bitflags' generated operators looked through)
+            if "ED" in added:
+                n_ed += 1
+                present = any(flow.asserts_ok(t, l, is_contents) for t, l, fn, w in x.conds)
+                wrote = isinstance(ext, tuple) and len(ext) == 4 and ext[0] == "agg" and ext[2] == "Some"
+                ok = ok and present and wrote and added == {"ED"} and base == ("field", SELF, "flags")
+            else:
+                n_plain += 1
+                absent = any(flow.asserts_fail(t, l, is_contents) or flow.asserts_fail(t, l, lambda y: y == ("param", 2)) for t, l, fn, w in x.conds)
+                unchanged = V == SELF or (not added and base == ("field", SELF, "flags") and ext == ("field", SELF, "extensions"))
+                ok = ok and absent and unchanged
+        ok = ok and n_ed >= 1 and n_plain >= 1
         chk.ob("R3 flags", "R3|ED|%s|exactly-when-non-empty" % nm, ok, where(b), "rows: %s" % [(x.vstr(), flow.term_str(x.value)[:90], x.cond_strs()[:2]) for x in o][:4])
     # reader: sections parsed iff flag set, errors propagated — read off the decision table of from_slice in normal form
     def flag_tested(t):
